@@ -93,10 +93,15 @@ pub fn resolve<DP: DependencyProvider>(
             state.partial_solution
         );
 
+        #[cfg(pubgrub_verif)]
+        crate::verif::emit(|| state.partial_solution.verif_snapshot());
+
         let Some(highest_priority_pkg) = state
             .partial_solution
             .pick_highest_priority_pkg(|p, r| dependency_provider.prioritize(p, r))
         else {
+            #[cfg(pubgrub_verif)]
+            crate::verif::emit(|| state.verif_store_snapshot());
             return Ok(state.partial_solution.extract_solution());
         };
         next = highest_priority_pkg;
